@@ -4,7 +4,12 @@ C18 — the reactor built from blueprints is the reactor the blueprints describe
 Part 1 (Model/AsciiMap.lean): the text-cell → grid-index maps of the ascii lattice maps.
 Part 2 (Model/Blueprint.lean): block stacking, link resolution, placement.
 Theorem-backed: cell-map injectivity (no two text cells of a map name the same grid index, for every
-map size), the closed forms `line = i + 2j (+ const)`, cumulative block elevations, link resolution over
+map size), the closed forms `line = i + 2j (+ const)`, the reader of every class keeps every token at its computed index
+(`read_keeps_every_token`), the Cartesian reader exactly (`cart_read_exact`), the
+Cartesian writer's soundness on non-negative indices (`cart_write_read_id_partial`: whatever it draws reads back
+to the contents; `cart_read_write_read_id`: read, written, read again gives the same contents), for EVERY class the completeness theorem
+`write_read_complete_partial` (a drawing reads back with every label at its own index unless the outline inferred from
+the data misses a cell or the reader re-infers other dimensions — the two classes the known findings are filed under), cumulative block elevations, link resolution over
 a DAG / rejection of cycles and unknown targets, exact placement / refusal of unknown specifiers.
 Correspondence-only (harness/c18.py): whole read/write round trips of the maps (exhaustive small +
 generated), component construction, materials, thermal expansion, composition.
@@ -69,6 +74,967 @@ theorem cart_cellmap_injective (M o c l c' l' : Int)
 /-- explicit inverse of the tips-up cell map: column `i + M`, line `M - i - j` (from the top) -/
 theorem tips_cell_inverse (M o i j : Int) : cellOf .tips M o (i + M) (M - i - j) = (i, j) := by
   simp only [cellOf, tipsBase, Prod.mk.injEq]; omega
+
+theorem get?_put_same (m : Labels) (k : Cell) (v : String) : get? (put m k v) k = some v := by
+  unfold put
+  split
+  · rename_i h
+    induction m with
+    | nil => simp at h
+    | cons p m ih =>
+      simp only [List.map_cons, get?, List.find?_cons]
+      by_cases hp : p.1 = k
+      · simp [hp]
+      · have hb : (p.1 == k) = false := by simpa using hp
+        simp only [hb, Bool.false_eq_true, ↓reduceIte]
+        have : m.any (fun p => p.1 == k) = true := by simpa [List.any_cons, hb] using h
+        exact ih this
+  · rename_i h
+    simp only [get?, List.find?_append]
+    have : m.find? (fun p => p.1 == k) = none := by
+      rw [List.find?_eq_none]; intro p hp hc
+      exact h (List.any_eq_true.mpr ⟨p, hp, hc⟩)
+    simp [this]
+
+private theorem get?_replace_other (m : Labels) (k k' : Cell) (v : String) (h : k' ≠ k) :
+    get? (m.map (fun p => if p.1 == k then (k, v) else p)) k' = get? m k' := by
+  induction m with
+  | nil => rfl
+  | cons p m ih =>
+    simp only [List.map_cons, get?, List.find?_cons] at ih ⊢
+    have hk : (k == k') = false := by simpa using fun hc => h hc.symm
+    by_cases hp : p.1 = k
+    · have hb : (p.1 == k) = true := by simpa using hp
+      have hk2 : (p.1 == k') = false := by rw [hp]; exact hk
+      simp only [hb, ↓reduceIte, hk, hk2]
+      exact ih
+    · have hb : (p.1 == k) = false := by simpa using hp
+      simp only [hb, Bool.false_eq_true, ↓reduceIte]
+      cases hq : (p.1 == k')
+      · simpa using ih
+      · simp
+
+theorem get?_put_other (m : Labels) (k k' : Cell) (v : String) (h : k' ≠ k) :
+    get? (put m k v) k' = get? m k' := by
+  unfold put
+  split
+  · exact get?_replace_other m k k' v h
+  · simp only [get?, List.find?_append]
+    have hk : (k == k') = false := by simpa using fun hc => h hc.symm
+    cases hf : m.find? (fun p => p.1 == k') <;> simp [hk]
+
+
+private theorem mem_takeWhile_true {α} (p : α → Bool) : ∀ (l : List α) (x : α), x ∈ l.takeWhile p → p x = true := by
+  intro l
+  induction l with
+  | nil => intro x h; simp at h
+  | cons a l ih =>
+    intro x h
+    simp only [List.takeWhile_cons] at h
+    by_cases ha : p a = true
+    · simp only [ha, ↓reduceIte, List.mem_cons] at h
+      rcases h with rfl | h
+      · exact ha
+      · exact ih x h
+    · simp [ha] at h
+
+theorem removeTrailing_spec (row : List String) :
+    ∃ suf, row = removeTrailing row ++ suf ∧ ∀ t ∈ suf, t = PLACEHOLDER := by
+  refine ⟨(row.reverse.takeWhile (· == PLACEHOLDER)).reverse, ?_, ?_⟩
+  · unfold removeTrailing
+    rw [← List.reverse_append, List.takeWhile_append_dropWhile, List.reverse_reverse]
+  · intro t ht
+    have := mem_takeWhile_true _ _ _ (List.mem_reverse.mp ht)
+    simpa using this
+
+/-- enumerate from `s` -/
+private def enumFrom (s : Nat) : List α → List (Int × α)
+  | [] => []
+  | x :: xs => ((s : Int), x) :: enumFrom (s + 1) xs
+
+private theorem enum_eq_enumFrom (l : List α) : enum l = enumFrom 0 l := by
+  unfold enum
+  suffices h : ∀ s, ((List.range' s l.length).map Int.ofNat).zip l = enumFrom s l by
+    rw [List.range_eq_range']; exact h 0
+  induction l with
+  | nil => intro s; rfl
+  | cons x xs ih =>
+    intro s
+    simp only [List.length_cons, List.range'_succ, List.map_cons, List.zip_cons_cons, enumFrom]
+    rw [ih (s + 1)]
+    rfl
+
+/-- one text line read into the labels: tokens land at `(s + position, li)`, everything else is kept -/
+private theorem inner_spec (li : Int) : ∀ (toks : List String) (s : Nat) (acc : Labels) (c l : Int),
+    get? ((enumFrom s toks).foldl (fun a (ct : Int × String) => put a (ct.1, li) ct.2) acc) (c, l) =
+      if l = li ∧ (s : Int) ≤ c ∧ c < s + toks.length then toks[(c - s).toNat]? else get? acc (c, l) := by
+  intro toks
+  induction toks with
+  | nil => intro s acc c l; simp [enumFrom]; omega
+  | cons t ts ih =>
+    intro s acc c l
+    simp only [enumFrom, List.foldl_cons]
+    rw [ih (s + 1)]
+    by_cases h1 : l = li ∧ ((s + 1 : Nat) : Int) ≤ c ∧ c < ((s + 1 : Nat) : Int) + ts.length
+    · have h2 : l = li ∧ (s : Int) ≤ c ∧ c < s + (t :: ts).length := by
+        simp only [List.length_cons]; omega
+      rw [if_pos h1, if_pos h2]
+      have : (c - s).toNat = (c - ((s + 1 : Nat) : Int)).toNat + 1 := by omega
+      rw [this, List.getElem?_cons_succ]
+    · rw [if_neg h1]
+      by_cases h3 : (c, l) = ((s : Int), li)
+      · have hc : c = s := congrArg Prod.fst h3
+        have hl : l = li := congrArg Prod.snd h3
+        have h2 : l = li ∧ (s : Int) ≤ c ∧ c < s + (t :: ts).length := by
+          simp only [List.length_cons]; omega
+        rw [if_pos h2, h3, get?_put_same]
+        simp [hc]
+      · rw [get?_put_other _ _ _ _ h3]
+        have h2 : ¬ (l = li ∧ (s : Int) ≤ c ∧ c < s + (t :: ts).length) := by
+          simp only [List.length_cons]
+          intro h
+          apply h3
+          have : c = s := by omega
+          rw [this, h.1]
+        rw [if_neg h2]
+
+
+/-- token at column `c` of the row that is `l - s` rows into `rows` -/
+def rowsLookup (rows : List (List String)) (s : Nat) (c l : Int) : Option String :=
+  if (s : Int) ≤ l ∧ 0 ≤ c then (rows[(l - s).toNat]?).bind (fun row => row[c.toNat]?) else none
+
+private theorem inner_spec' (li : Int) (toks : List String) (acc : Labels) (c l : Int) :
+    get? ((enum toks).foldl (fun a (ct : Int × String) => put a (ct.1, li) ct.2) acc) (c, l) =
+      if l = li ∧ 0 ≤ c then (toks[c.toNat]?).or (get? acc (c, l)) else get? acc (c, l) := by
+  rw [enum_eq_enumFrom, inner_spec li toks 0 acc c l]
+  by_cases h : l = li ∧ 0 ≤ c
+  · rw [if_pos h]
+    by_cases h2 : c < toks.length
+    · have : l = li ∧ ((0 : Nat) : Int) ≤ c ∧ c < ((0 : Nat) : Int) + toks.length := by omega
+      rw [if_pos this]
+      have hlt : c.toNat < toks.length := by omega
+      simp [List.getElem?_eq_getElem hlt]
+    · have : ¬ (l = li ∧ ((0 : Nat) : Int) ≤ c ∧ c < ((0 : Nat) : Int) + toks.length) := by omega
+      rw [if_neg this]
+      have hge : toks.length ≤ c.toNat := by omega
+      simp [List.getElem?_eq_none hge]
+  · rw [if_neg h]
+    have : ¬ (l = li ∧ ((0 : Nat) : Int) ≤ c ∧ c < ((0 : Nat) : Int) + toks.length) := by omega
+    rw [if_neg this]
+
+private theorem outer_spec : ∀ (rows : List (List String)) (s : Nat) (acc : Labels) (c l : Int),
+    get? ((enumFrom s rows).foldl (fun acc (ll : Int × List String) =>
+        (enum ll.2).foldl (fun a (ct : Int × String) => put a (ct.1, ll.1) ct.2) acc) acc) (c, l) =
+      (rowsLookup rows s c l).or (get? acc (c, l)) := by
+  intro rows
+  induction rows with
+  | nil => intro s acc c l; simp [enumFrom, rowsLookup]
+  | cons row rows ih =>
+    intro s acc c l
+    simp only [enumFrom, List.foldl_cons]
+    rw [ih (s + 1), inner_spec']
+    unfold rowsLookup
+    by_cases hc : 0 ≤ c
+    · by_cases hl : l = (s : Int)
+      · -- the head row
+        have h1 : ¬ (((s + 1 : Nat) : Int) ≤ l ∧ 0 ≤ c) := by omega
+        have h2 : (s : Int) ≤ l ∧ 0 ≤ c := by omega
+        have h3 : (l - (s : Int)).toNat = 0 := by omega
+        rw [if_neg h1, if_pos h2, if_pos ⟨hl, hc⟩, h3]
+        simp
+      · by_cases hgt : ((s + 1 : Nat) : Int) ≤ l
+        · have h2 : (s : Int) ≤ l ∧ 0 ≤ c := by omega
+          have h3 : (l - (s : Int)).toNat = (l - ((s + 1 : Nat) : Int)).toNat + 1 := by omega
+          have h4 : ¬ (l = (s : Int) ∧ 0 ≤ c) := fun h => hl h.1
+          rw [if_pos ⟨hgt, hc⟩, if_pos h2, if_neg h4, h3, List.getElem?_cons_succ]
+        · have h1 : ¬ (((s + 1 : Nat) : Int) ≤ l ∧ 0 ≤ c) := fun h => hgt h.1
+          have h2 : ¬ ((s : Int) ≤ l ∧ 0 ≤ c) := by omega
+          have h4 : ¬ (l = (s : Int) ∧ 0 ≤ c) := fun h => hl h.1
+          rw [if_neg h1, if_neg h2, if_neg h4]
+    · have h1 : ¬ (((s + 1 : Nat) : Int) ≤ l ∧ 0 ≤ c) := fun h => hc h.2
+      have h2 : ¬ ((s : Int) ≤ l ∧ 0 ≤ c) := fun h => hc h.2
+      have h4 : ¬ (l = (s : Int) ∧ 0 ≤ c) := fun h => hc h.2
+      rw [if_neg h1, if_neg h2, if_neg h4]
+
+/-- **the Cartesian reader, exactly**: the label at grid index `(c, l)` is the `c`-th token of the `l`-th
+text line counted from the bottom — for every text and every index. -/
+theorem cart_read_exact (M o : Int) (lines : List (List String)) (c l : Int) :
+    get? (readLabels .cart M o lines) (c, l) = rowsLookup lines.reverse 0 c l := by
+  unfold readLabels
+  have hk : (Kind.cart = Kind.tips) = False := by simp
+  simp only [hk, ↓reduceIte, cellOf]
+  rw [enum_eq_enumFrom, outer_spec]
+  simp [get?]
+
+
+private theorem foldl_max_ge : ∀ (xs : List Int) (a : Int),
+    a ≤ xs.foldl max a ∧ ∀ y ∈ xs, y ≤ xs.foldl max a := by
+  intro xs
+  induction xs with
+  | nil => intro a; simp
+  | cons x xs ih =>
+    intro a
+    simp only [List.foldl_cons]
+    obtain ⟨h1, h2⟩ := ih (max a x)
+    refine ⟨by omega, ?_⟩
+    intro y hy
+    rcases List.mem_cons.mp hy with rfl | hy
+    · omega
+    · exact h2 y hy
+
+private theorem maxD_ge (d : Int) (l : List Int) (x : Int) (h : x ∈ l) : x ≤ maxD d l := by
+  cases l with
+  | nil => cases h
+  | cons a as =>
+    simp only [maxD]
+    obtain ⟨h1, h2⟩ := foldl_max_ge as a
+    rcases List.mem_cons.mp h with rfl | h
+    · exact h1
+    · exact h2 x h
+
+private theorem get?_some_mem (L : Labels) (cell : Cell) (v : String) (h : get? L cell = some v) :
+    (cell, v) ∈ L := by
+  unfold get? at h
+  cases hf : L.find? (fun p => p.1 == cell) with
+  | none => simp [hf] at h
+  | some q =>
+    simp only [hf, Option.map_some, Option.some.injEq] at h
+    have h1 := List.mem_of_find?_eq_some hf
+    have h2 : q.1 = cell := by simpa using List.find?_some hf
+    have : q = (cell, v) := by rw [← h2, ← h]
+    rw [← this]; exact h1
+
+private theorem pyRange_get (H : Int) (i : Nat) :
+    (pyRange H)[i]? = if (i : Int) < H then some (i : Int) else none := by
+  unfold pyRange
+  by_cases h : (i : Int) < H
+  · have : i < H.toNat := by omega
+    simp [h]
+  · have : H.toNat ≤ i := by omega
+    simp [h]
+
+private theorem pyRange_length (H : Int) : (pyRange H).length = H.toNat := by simp [pyRange]
+
+/-- the cleaning loop: some leading rows, all of them placeholder rows, are dropped; every remaining row
+is kept with its trailing placeholders removed, and none of them was wiped out -/
+private theorem cleanLines_false : ∀ (ls : List (List String)) (acc r : List (List String)),
+    cleanLines ls false acc = some r →
+      r = acc ++ ls.map removeTrailing ∧ ∀ row ∈ ls, removeTrailing row ≠ [] := by
+  intro ls
+  induction ls with
+  | nil => intro acc r h; simp [cleanLines] at h; simp [h]
+  | cons row rest ih =>
+    intro acc r h
+    simp only [cleanLines, Bool.and_false, Bool.false_eq_true, ↓reduceIte] at h
+    by_cases he : (removeTrailing row).isEmpty = true
+    · simp [he] at h
+    · simp only [he, Bool.false_eq_true, ↓reduceIte] at h
+      obtain ⟨h1, h2⟩ := ih _ r h
+      refine ⟨by simp [h1], ?_⟩
+      intro x hx
+      rcases List.mem_cons.mp hx with rfl | hx
+      · intro hc; apply he; simp [hc]
+      · exact h2 x hx
+
+private theorem cleanLines_true : ∀ (ls : List (List String)) (r : List (List String)),
+    cleanLines ls true [] = some r →
+      ∃ k, k ≤ ls.length ∧ (∀ row ∈ ls.take k, rowAllDash row = true) ∧
+        r = (ls.drop k).map removeTrailing ∧ ∀ row ∈ ls.drop k, removeTrailing row ≠ [] := by
+  intro ls
+  induction ls with
+  | nil => intro r h; simp [cleanLines] at h; exact ⟨0, by simp, by simp, by simp [h], by simp⟩
+  | cons row rest ih =>
+    intro r h
+    simp only [cleanLines, Bool.and_true] at h
+    by_cases hd : rowAllDash row = true
+    · simp only [hd, ↓reduceIte] at h
+      obtain ⟨k, hk, h1, h2, h3⟩ := ih r h
+      refine ⟨k + 1, by simp; omega, ?_, by simpa using h2, by simpa using h3⟩
+      intro x hx
+      simp only [List.take_succ_cons, List.mem_cons] at hx
+      rcases hx with rfl | hx
+      · exact hd
+      · exact h1 x hx
+    · simp only [hd, Bool.false_eq_true, ↓reduceIte] at h
+      by_cases he : (removeTrailing row).isEmpty = true
+      · simp [he] at h
+      · simp only [he, Bool.false_eq_true, ↓reduceIte] at h
+        obtain ⟨h1, h2⟩ := cleanLines_false rest _ r h
+        refine ⟨0, by simp, by simp, by simp [h1], ?_⟩
+        intro x hx
+        simp only [List.drop_zero] at hx
+        rcases List.mem_cons.mp hx with rfl | hx
+        · intro hc; apply he; simp [hc]
+        · exact h2 x hx
+
+
+theorem readAscii_labels (k : Kind) (lines : List (List String)) (m : AMap) (h : readAscii k lines = some m) :
+    m.labels = readLabels k (readerDims k lines).1 (readerDims k lines).2 lines := by
+  unfold readAscii at h
+  split at h
+  · cases h
+  · simp only [] at h
+    split at h
+    · cases h
+    · simp only [Option.some.injEq] at h
+      rw [← h]
+
+theorem readAscii_some (k : Kind) (lines : List (List String)) (h1 : lines.isEmpty = false)
+    (h2 : (readLabels k (readerDims k lines).1 (readerDims k lines).2 lines).isEmpty = false) :
+    ∃ m, readAscii k lines = some m ∧
+      m.labels = readLabels k (readerDims k lines).1 (readerDims k lines).2 lines := by
+  unfold readAscii
+  simp only [h1, Bool.false_eq_true, ↓reduceIte, h2]
+  exact ⟨_, rfl, rfl⟩
+
+/-- a label that is real data: non-empty, free of blanks (so the writer's blank removal keeps it), not the
+placeholder and not a run of dashes (which the writer's regex takes for placeholders) -/
+def IsData (v : String) : Prop :=
+  v.isEmpty = false ∧ stripBlanks v = v ∧ v ≠ PLACEHOLDER ∧ v.toList.all (· == '-') = false
+
+private theorem prefix_get {α} (pre suf : List α) (i : Nat) (t : α) (h : pre[i]? = some t) :
+    (pre ++ suf)[i]? = some t := by
+  rcases Nat.lt_or_ge i pre.length with hi | hi
+  · rw [List.getElem?_append_left hi]; exact h
+  · rw [List.getElem?_eq_none hi] at h; cases h
+
+private theorem suffix_mem {α} (pre suf : List α) (i : Nat) (t : α) (hi : pre.length ≤ i)
+    (h : (pre ++ suf)[i]? = some t) : t ∈ suf := by
+  rw [List.getElem?_append_right hi] at h
+  exact List.mem_of_getElem? h
+
+/-- **Cartesian maps: what the writer draws reads back to the contents** (`write_sound` for Cartesian
+maps, `_partial`: non-negative indices — for negative indices the statement is false in the code, see
+findings.d/C18.txt). If `gridContentsToAscii` does not refuse, reading the drawn lines again gives, at every
+grid index, exactly the label the contents hold there (a placeholder or nothing where they hold none). -/
+theorem cart_write_read_id_partial (L : Labels) (m : AMap)
+    (hpos : ∀ p ∈ L, 0 ≤ p.1.1 ∧ 0 ≤ p.1.2)
+    (hdata : ∀ p ∈ L, IsData p.2)
+    (hw : gridContentsToAscii .cart L = some m) :
+    ∃ m', readAscii .cart m.lines = some m' ∧
+      ∀ cell, (get? m'.labels cell).filter (· != PLACEHOLDER) = get? L cell := by
+  -- unfold the writer
+  unfold gridContentsToAscii at hw
+  cases hdim : dimsFromData .cart L with
+  | none => simp [hdim] at hw
+  | some dims =>
+    obtain ⟨M, o, W, H⟩ := dims
+    simp only [hdim] at hw
+    have hk : (Kind.cart = Kind.tips) = False := by simp
+    simp only [hk, ↓reduceIte] at hw
+    -- the dimensions
+    unfold dimsFromData at hdim
+    by_cases hLe : L.isEmpty = true
+    · simp [hLe] at hdim
+    simp only [hLe, Bool.false_eq_true, ↓reduceIte] at hdim
+    split at hdim
+    · cases hdim
+    simp only [Option.some.injEq, Prod.mk.injEq] at hdim
+    obtain ⟨_, ho, hW, hH⟩ := hdim
+    have hbW : ∀ p ∈ L, p.1.1 < W := by
+      intro p hp
+      have := maxD_ge 0 ((L.map (·.1)).map (·.1)) p.1.1 (List.mem_map.mpr ⟨p.1, List.mem_map.mpr ⟨p, hp, rfl⟩, rfl⟩)
+      omega
+    have hbH : ∀ p ∈ L, p.1.2 < H := by
+      intro p hp
+      have := maxD_ge 0 ((L.map (·.1)).map (·.2)) p.1.2 (List.mem_map.mpr ⟨p.1, List.mem_map.mpr ⟨p, hp, rfl⟩, rfl⟩)
+      omega
+    -- the cleaning loop
+    generalize hl0 : ((pyRange H).reverse.map (fun ln => (pyRange W).map (fun c => tokenAt L (cellOf .cart M o c ln)))) = lines0 at hw
+    cases hcl : cleanLines lines0 true [] with
+    | none => simp [hcl] at hw
+    | some r =>
+      simp only [hcl] at hw
+      by_cases hre : r.isEmpty = true
+      · simp [hre] at hw
+      simp only [hre, Bool.false_eq_true, ↓reduceIte, Option.some.injEq] at hw
+      have hml : m.lines = r := by rw [← hw]
+      obtain ⟨k, hkl, hdash, hr, hne⟩ := cleanLines_true lines0 r hcl
+      -- rows from the bottom
+      let row : Int → List String := fun ln => (pyRange W).map (fun c => tokenAt L (c, ln))
+      have hrows : lines0.reverse = (pyRange H).map row := by
+        rw [← hl0, ← List.map_reverse, List.reverse_reverse]; rfl
+      have hlen0 : lines0.length = H.toNat := by rw [← hl0]; simp [pyRange_length]
+      have hrrev : r.reverse = (((pyRange H).map row).take (H.toNat - k)).map removeTrailing := by
+        rw [hr, ← List.map_reverse, List.reverse_drop, hrows, hlen0]
+      -- a row, column by column
+      have hrowget : ∀ (ln : Int) (c : Nat), (row ln)[c]? = if (c : Int) < W then some (tokenAt L ((c : Int), ln)) else none := by
+        intro ln c
+        simp only [row, List.getElem?_map, pyRange_get]
+        split <;> simp
+      -- the lookup of the re-read text
+      have hlook : ∀ (c l : Int), rowsLookup r.reverse 0 c l =
+          if 0 ≤ l ∧ 0 ≤ c ∧ l.toNat < H.toNat - k then (removeTrailing (row l))[c.toNat]? else none := by
+        intro c l
+        unfold rowsLookup
+        rw [hrrev]
+        by_cases h1 : 0 ≤ l ∧ 0 ≤ c
+        · have h1' : ((0 : Nat) : Int) ≤ l ∧ 0 ≤ c := by omega
+          rw [if_pos h1']
+          have hsub : (l - ((0 : Nat) : Int)).toNat = l.toNat := by omega
+          rw [hsub, List.getElem?_map, List.getElem?_take]
+          by_cases h2 : l.toNat < H.toNat - k
+          · have h3 : 0 ≤ l ∧ 0 ≤ c ∧ l.toNat < H.toNat - k := ⟨h1.1, h1.2, h2⟩
+            rw [if_pos h3, if_pos h2, List.getElem?_map, pyRange_get]
+            have h4 : ((l.toNat : Nat) : Int) < H := by omega
+            have h5 : ((l.toNat : Nat) : Int) = l := by omega
+            have h6 : l < H := by omega
+            simp [h5, h6]
+          · have h3 : ¬ (0 ≤ l ∧ 0 ≤ c ∧ l.toNat < H.toNat - k) := fun h => h2 h.2.2
+            rw [if_neg h3, if_neg h2]; rfl
+        · have h1' : ¬ (((0 : Nat) : Int) ≤ l ∧ 0 ≤ c) := by omega
+          have h3 : ¬ (0 ≤ l ∧ 0 ≤ c ∧ l.toNat < H.toNat - k) := fun h => h1 ⟨h.1, h.2.1⟩
+          rw [if_neg h1', if_neg h3]
+      -- the reader succeeds
+      have hrne : r ≠ [] := by intro hc; apply hre; simp [hc]
+      have hrowne : ∀ x ∈ r, x ≠ [] := by
+        intro x hx
+        rw [hr] at hx
+        obtain ⟨y, hy, rfl⟩ := List.mem_map.mp hx
+        exact hne y hy
+      -- the reader succeeds on the drawn lines
+      have hlab : ∀ c l, get? (readLabels .cart 0 0 r) (c, l) =
+          if 0 ≤ l ∧ 0 ≤ c ∧ l.toNat < H.toNat - k then (removeTrailing (row l))[c.toNat]? else none := by
+        intro c l; rw [cart_read_exact, hlook]
+      have hnonempty : (readLabels .cart 0 0 r).isEmpty = false := by
+        cases hrl : readLabels .cart 0 0 r with
+        | cons _ _ => rfl
+        | nil =>
+          exfalso
+          have h00 := cart_read_exact 0 0 r 0 0
+          rw [hrl] at h00
+          simp only [get?, List.find?_nil, Option.map_none, rowsLookup] at h00
+          cases hrr : r.reverse with
+          | nil => exact hrne (by simpa using hrr)
+          | cons x xs =>
+            have hx : x ∈ r := by rw [← List.mem_reverse, hrr]; exact List.mem_cons_self
+            have hxne := hrowne x hx
+            cases x with
+            | nil => exact hxne rfl
+            | cons t ts => simp [hrr] at h00
+      have hread : ∃ m', readAscii .cart r = some m' ∧ m'.labels = readLabels .cart 0 0 r :=
+        readAscii_some .cart r (by simpa using hre) hnonempty
+      obtain ⟨m', hm1, hm2⟩ := hread
+      refine ⟨m', by rw [hml]; exact hm1, ?_⟩
+      · intro cell
+        obtain ⟨c, l⟩ := cell
+        rw [hm2, hlab]
+        cases hg : get? L (c, l) with
+        | some v =>
+          -- the contents hold a label there: it is drawn and read back
+          have hmem := get?_some_mem L (c, l) v hg
+          obtain ⟨hc0, hl0'⟩ := hpos _ hmem
+          have hcW := hbW _ hmem
+          have hlH := hbH _ hmem
+          obtain ⟨_, hrep, hnp, hnd⟩ := hdata _ hmem
+          simp only at hc0 hl0' hcW hlH hrep hnp hnd
+          have htok : tokenAt L (c, l) = v := by simp [tokenAt, hg, hrep]
+          have hcn : ((c.toNat : Nat) : Int) = c := by omega
+          have hrowc : (row l)[c.toNat]? = some v := by
+            rw [hrowget, hcn, if_pos hcW, htok]
+          have hvrow : v ∈ row l := List.mem_of_getElem? hrowc
+          -- the row was not dropped
+          have hkept : l.toNat < H.toNat - k := by
+            rcases Nat.lt_or_ge l.toNat (H.toNat - k) with h | h
+            · exact h
+            · exfalso
+              -- row l is one of the first k rows of lines0
+              have hidx : lines0[H.toNat - 1 - l.toNat]? = some (row l) := by
+                have h1 : lines0.reverse[l.toNat]? = some (row l) := by
+                  rw [hrows, List.getElem?_map, pyRange_get]
+                  have h5 : ((l.toNat : Nat) : Int) = l := by omega
+                  simp [h5, hlH]
+                have hlt : l.toNat < lines0.length := by omega
+                rw [List.getElem?_reverse hlt] at h1
+                rw [hlen0] at h1
+                exact h1
+              have hin : row l ∈ lines0.take k := by
+                have : (lines0.take k)[H.toNat - 1 - l.toNat]? = some (row l) := by
+                  rw [List.getElem?_take, if_pos (by omega)]; exact hidx
+                exact List.mem_of_getElem? this
+              have hd := hdash _ hin
+              unfold rowAllDash at hd
+              simp only [Bool.and_eq_true] at hd
+              have hall := List.all_eq_true.mp hd.2 v hvrow
+              rw [hnd] at hall; cases hall
+          -- and it is not among the trailing placeholders
+          obtain ⟨suf, hsplit, hsuf⟩ := removeTrailing_spec (row l)
+          have hin : c.toNat < (removeTrailing (row l)).length := by
+            rcases Nat.lt_or_ge c.toNat (removeTrailing (row l)).length with h | h
+            · exact h
+            · exfalso
+              have : (removeTrailing (row l) ++ suf)[c.toNat]? = some v := by rw [← hsplit]; exact hrowc
+              exact hnp (hsuf v (suffix_mem _ _ _ _ h this))
+          have hget : (removeTrailing (row l))[c.toNat]? = some v := by
+            have h1 : (removeTrailing (row l) ++ suf)[c.toNat]? = some v := by rw [← hsplit]; exact hrowc
+            rwa [List.getElem?_append_left hin] at h1
+          rw [if_pos ⟨hl0', hc0, hkept⟩, hget]
+          have : (v != PLACEHOLDER) = true := by simpa using hnp
+          simp [Option.filter, this]
+        | none =>
+          -- nothing there: whatever is read back is a placeholder
+          by_cases hcond : 0 ≤ l ∧ 0 ≤ c ∧ l.toNat < H.toNat - k
+          · rw [if_pos hcond]
+            cases hx : (removeTrailing (row l))[c.toNat]? with
+            | none => rfl
+            | some t =>
+              obtain ⟨suf, hsplit, _⟩ := removeTrailing_spec (row l)
+              have h1 : (row l)[c.toNat]? = some t := by rw [hsplit]; exact prefix_get _ _ _ _ hx
+              rw [hrowget] at h1
+              have hcn : ((c.toNat : Nat) : Int) = c := by omega
+              rw [hcn] at h1
+              split at h1
+              · simp only [Option.some.injEq] at h1
+                have : t = PLACEHOLDER := by rw [← h1]; simp [tokenAt, hg]
+                subst this
+                simp [Option.filter]
+              · cases h1
+          · rw [if_neg hcond]; rfl
+
+
+
+/-- enumerate from `s` (local copy) -/
+private def enumFrom' (s : Nat) : List α → List (Int × α)
+  | [] => []
+  | x :: xs => ((s : Int), x) :: enumFrom' (s + 1) xs
+
+private theorem enum_eq_enumFrom' (l : List α) : enum l = enumFrom' 0 l := by
+  unfold enum
+  suffices h : ∀ s, ((List.range' s l.length).map Int.ofNat).zip l = enumFrom' s l by
+    rw [List.range_eq_range']; exact h 0
+  induction l with
+  | nil => intro s; rfl
+  | cons x xs ih =>
+    intro s
+    simp only [List.length_cons, List.range'_succ, List.map_cons, List.zip_cons_cons, enumFrom']
+    rw [ih (s + 1)]
+    rfl
+
+/-- a key function that never sends two text positions (with non-negative line numbers) to one index -/
+def KeyInjective (key : Int → Int → Cell) : Prop :=
+  ∀ c l c' l', 0 ≤ l → 0 ≤ l' → key c l = key c' l' → c = c' ∧ l = l'
+
+private theorem inner_gen (key : Int → Int → Cell) (hinj : KeyInjective key) (li : Int) (hli : 0 ≤ li) :
+    ∀ (toks : List String) (s : Nat) (acc : Labels) (c l : Int), 0 ≤ l →
+    get? ((enumFrom' s toks).foldl (fun a (ct : Int × String) => put a (key ct.1 li) ct.2) acc) (key c l) =
+      if l = li ∧ (s : Int) ≤ c ∧ c < s + toks.length then toks[(c - s).toNat]? else get? acc (key c l) := by
+  intro toks
+  induction toks with
+  | nil => intro s acc c l _; simp [enumFrom']; omega
+  | cons t ts ih =>
+    intro s acc c l hl
+    simp only [enumFrom', List.foldl_cons]
+    rw [ih (s + 1) _ c l hl]
+    by_cases h1 : l = li ∧ ((s + 1 : Nat) : Int) ≤ c ∧ c < ((s + 1 : Nat) : Int) + ts.length
+    · have h2 : l = li ∧ (s : Int) ≤ c ∧ c < s + (t :: ts).length := by
+        simp only [List.length_cons]; omega
+      rw [if_pos h1, if_pos h2]
+      have : (c - s).toNat = (c - ((s + 1 : Nat) : Int)).toNat + 1 := by omega
+      rw [this, List.getElem?_cons_succ]
+    · rw [if_neg h1]
+      by_cases h3 : key c l = key (s : Int) li
+      · obtain ⟨hc, hl'⟩ := hinj c l s li hl hli h3
+        have h2 : l = li ∧ (s : Int) ≤ c ∧ c < s + (t :: ts).length := by
+          simp only [List.length_cons]; omega
+        rw [if_pos h2, h3, get?_put_same]
+        simp [hc]
+      · rw [get?_put_other _ _ _ _ h3]
+        have h2 : ¬ (l = li ∧ (s : Int) ≤ c ∧ c < s + (t :: ts).length) := by
+          simp only [List.length_cons]
+          intro h
+          apply h3
+          have : c = s := by omega
+          rw [this, h.1]
+        rw [if_neg h2]
+
+private theorem inner_gen' (key : Int → Int → Cell) (hinj : KeyInjective key) (li : Int) (hli : 0 ≤ li)
+    (toks : List String) (acc : Labels) (c l : Int) (hl : 0 ≤ l) :
+    get? ((enum toks).foldl (fun a (ct : Int × String) => put a (key ct.1 li) ct.2) acc) (key c l) =
+      if l = li ∧ 0 ≤ c then (toks[c.toNat]?).or (get? acc (key c l)) else get? acc (key c l) := by
+  rw [enum_eq_enumFrom', inner_gen key hinj li hli toks 0 acc c l hl]
+  by_cases h : l = li ∧ 0 ≤ c
+  · rw [if_pos h]
+    by_cases h2 : c < toks.length
+    · have : l = li ∧ ((0 : Nat) : Int) ≤ c ∧ c < ((0 : Nat) : Int) + toks.length := by omega
+      rw [if_pos this]
+      have hlt : c.toNat < toks.length := by omega
+      simp [List.getElem?_eq_getElem hlt]
+    · have : ¬ (l = li ∧ ((0 : Nat) : Int) ≤ c ∧ c < ((0 : Nat) : Int) + toks.length) := by omega
+      rw [if_neg this]
+      have hge : toks.length ≤ c.toNat := by omega
+      simp [List.getElem?_eq_none hge]
+  · rw [if_neg h]
+    have : ¬ (l = li ∧ ((0 : Nat) : Int) ≤ c ∧ c < ((0 : Nat) : Int) + toks.length) := by omega
+    rw [if_neg this]
+
+private theorem outer_gen (key : Int → Int → Cell) (hinj : KeyInjective key) :
+    ∀ (rows : List (List String)) (s : Nat) (acc : Labels) (c l : Int), 0 ≤ l →
+    get? ((enumFrom' s rows).foldl (fun acc (ll : Int × List String) =>
+        (enum ll.2).foldl (fun a (ct : Int × String) => put a (key ct.1 ll.1) ct.2) acc) acc) (key c l) =
+      (rowsLookup rows s c l).or (get? acc (key c l)) := by
+  intro rows
+  induction rows with
+  | nil => intro s acc c l _; simp [enumFrom', rowsLookup]
+  | cons row rows ih =>
+    intro s acc c l hl0
+    simp only [enumFrom', List.foldl_cons]
+    rw [ih (s + 1) _ c l hl0, inner_gen' key hinj (s : Int) (by omega) row acc c l hl0]
+    unfold rowsLookup
+    by_cases hc : 0 ≤ c
+    · by_cases hl : l = (s : Int)
+      · have h1 : ¬ (((s + 1 : Nat) : Int) ≤ l ∧ 0 ≤ c) := by omega
+        have h2 : (s : Int) ≤ l ∧ 0 ≤ c := by omega
+        have h3 : (l - (s : Int)).toNat = 0 := by omega
+        rw [if_neg h1, if_pos h2, if_pos ⟨hl, hc⟩, h3]
+        simp
+      · by_cases hgt : ((s + 1 : Nat) : Int) ≤ l
+        · have h2 : (s : Int) ≤ l ∧ 0 ≤ c := by omega
+          have h3 : (l - (s : Int)).toNat = (l - ((s + 1 : Nat) : Int)).toNat + 1 := by omega
+          have h4 : ¬ (l = (s : Int) ∧ 0 ≤ c) := fun h => hl h.1
+          rw [if_pos ⟨hgt, hc⟩, if_pos h2, if_neg h4, h3, List.getElem?_cons_succ]
+        · have h1 : ¬ (((s + 1 : Nat) : Int) ≤ l ∧ 0 ≤ c) := fun h => hgt h.1
+          have h2 : ¬ ((s : Int) ≤ l ∧ 0 ≤ c) := by omega
+          have h4 : ¬ (l = (s : Int) ∧ 0 ≤ c) := fun h => hl h.1
+          rw [if_neg h1, if_neg h2, if_neg h4]
+    · have h1 : ¬ (((s + 1 : Nat) : Int) ≤ l ∧ 0 ≤ c) := fun h => hc h.2
+      have h2 : ¬ ((s : Int) ≤ l ∧ 0 ≤ c) := fun h => hc h.2
+      have h4 : ¬ (l = (s : Int) ∧ 0 ≤ c) := fun h => hc h.2
+      rw [if_neg h1, if_neg h2, if_neg h4]
+
+/-- the cell map of every class is injective on text positions with non-negative line numbers -/
+theorem cellOf_keyInjective (k : Kind) (M o : Int) : KeyInjective (cellOf k M o) := by
+  intro c l c' l' hl hl' h
+  cases k with
+  | cart => exact cart_cellmap_injective M o c l c' l' h
+  | third => exact third_cellmap_injective M o c l c' l' hl hl' h
+  | full => exact full_cellmap_injective M o c l c' l' h
+  | tips => exact tips_cellmap_injective M o c l c' l' h
+
+/-- **reading loses no token, in every geometry**: for each class and every text, the label stored at the
+grid index computed for text position (column `c`, line `l` in reading order: from the bottom, tips-up maps
+from the top) is exactly the token at that position — tokens never overwrite one another. -/
+theorem read_keeps_every_token (k : Kind) (M o : Int) (lines : List (List String)) (c l : Int) (hl : 0 ≤ l) :
+    get? (readLabels k M o lines) (cellOf k M o c l) =
+      rowsLookup (if k = .tips then lines else lines.reverse) 0 c l := by
+  unfold readLabels
+  simp only []
+  rw [enum_eq_enumFrom', outer_gen (cellOf k M o) (cellOf_keyInjective k M o) _ 0 [] c l hl]
+  simp [get?]
+
+
+
+private theorem put_mem (m : Labels) (k : Cell) (v : String) (q : Cell × String) (h : q ∈ put m k v) :
+    q ∈ m ∨ q = (k, v) := by
+  unfold put at h
+  split at h
+  · obtain ⟨p, hp, rfl⟩ := List.mem_map.mp h
+    by_cases hk : (p.1 == k) = true
+    · right; simp [hk]
+    · left; simpa [hk] using hp
+  · rcases List.mem_append.mp h with h | h
+    · exact Or.inl h
+    · right; simpa using h
+
+/-- every entry the reader produces sits at a non-negative Cartesian index and carries a token of the text -/
+private theorem readLabels_cart_mem (M o : Int) (lines : List (List String)) (q : Cell × String)
+    (h : q ∈ readLabels .cart M o lines) :
+    0 ≤ q.1.1 ∧ 0 ≤ q.1.2 ∧ ∃ row ∈ lines, q.2 ∈ row := by
+  unfold readLabels at h
+  have hk : (Kind.cart = Kind.tips) = False := by simp
+  simp only [hk, ↓reduceIte, cellOf] at h
+  -- invariant of the two folds
+  let P : Cell × String → Prop := fun q => 0 ≤ q.1.1 ∧ 0 ≤ q.1.2 ∧ ∃ row ∈ lines, q.2 ∈ row
+  have hinner : ∀ (toks : List (Int × String)) (li : Int) (acc : Labels),
+      0 ≤ li → (∀ ct ∈ toks, 0 ≤ ct.1 ∧ ∃ row ∈ lines, ct.2 ∈ row) → (∀ q ∈ acc, P q) →
+      ∀ q ∈ toks.foldl (fun a (ct : Int × String) => put a (ct.1, li) ct.2) acc, P q := by
+    intro toks
+    induction toks with
+    | nil => intro li acc _ _ hacc q hq; exact hacc q hq
+    | cons ct toks ih =>
+      intro li acc hli htoks hacc q hq
+      simp only [List.foldl_cons] at hq
+      apply ih li (put acc (ct.1, li) ct.2) hli (fun x hx => htoks x (List.mem_cons_of_mem _ hx)) _ q hq
+      intro q' hq'
+      rcases put_mem _ _ _ _ hq' with h1 | h1
+      · exact hacc q' h1
+      · subst h1
+        obtain ⟨h0, hrow⟩ := htoks ct List.mem_cons_self
+        exact ⟨h0, hli, hrow⟩
+  have henum : ∀ {α} (l : List α) (x : Int × α), x ∈ enum l → 0 ≤ x.1 ∧ x.2 ∈ l := by
+    intro α l x hx
+    unfold enum at hx
+    have h1 := List.of_mem_zip hx
+    obtain ⟨n, _, hn⟩ := List.mem_map.mp h1.1
+    exact ⟨by rw [← hn]; exact Int.natCast_nonneg n, h1.2⟩
+  have houter : ∀ (rows : List (Int × List String)) (acc : Labels),
+      (∀ ll ∈ rows, 0 ≤ ll.1 ∧ ll.2 ∈ lines) → (∀ q ∈ acc, P q) →
+      ∀ q ∈ rows.foldl (fun acc (ll : Int × List String) =>
+        (enum ll.2).foldl (fun a (ct : Int × String) => put a (ct.1, ll.1) ct.2) acc) acc, P q := by
+    intro rows
+    induction rows with
+    | nil => intro acc _ hacc q hq; exact hacc q hq
+    | cons ll rows ih =>
+      intro acc hrows hacc q hq
+      simp only [List.foldl_cons] at hq
+      apply ih _ (fun x hx => hrows x (List.mem_cons_of_mem _ hx)) _ q hq
+      obtain ⟨hl0, hmem⟩ := hrows ll List.mem_cons_self
+      apply hinner (enum ll.2) ll.1 acc hl0 _ hacc
+      intro ct hct
+      obtain ⟨h0, h1⟩ := henum ll.2 ct hct
+      exact ⟨h0, ll.2, hmem, h1⟩
+  apply houter (enum lines.reverse) [] _ (by simp) q h
+  intro ll hll
+  obtain ⟨h0, h1⟩ := henum lines.reverse ll hll
+  exact ⟨h0, List.mem_reverse.mp h1⟩
+
+/-- **Cartesian maps: read, written and read again gives the same indexed contents.** For a text whose
+tokens are data labels or placeholders: take the contents the reader finds (placeholders dropped, as the grid
+blueprint does); if the writer draws them at all, reading its drawing gives exactly those contents. -/
+theorem cart_read_write_read_id (lines : List (List String)) (m m2 : AMap)
+    (htok : ∀ row ∈ lines, ∀ t ∈ row, t = PLACEHOLDER ∨ IsData t)
+    (hr : readAscii .cart lines = some m)
+    (hw : gridContentsToAscii .cart (dataOf m.labels) = some m2) :
+    ∃ m3, readAscii .cart m2.lines = some m3 ∧
+      ∀ cell, (get? m3.labels cell).filter (· != PLACEHOLDER) = get? (dataOf m.labels) cell := by
+  have hlab : m.labels = readLabels .cart 0 0 lines := readAscii_labels .cart lines m hr
+  apply cart_write_read_id_partial (dataOf m.labels) m2 _ _ hw
+  · intro p hp
+    have hp' : p ∈ m.labels := (List.mem_filter.mp hp).1
+    rw [hlab] at hp'
+    obtain ⟨h1, h2, _⟩ := readLabels_cart_mem 0 0 lines p hp'
+    exact ⟨h1, h2⟩
+  · intro p hp
+    obtain ⟨hp', hne⟩ := List.mem_filter.mp hp
+    rw [hlab] at hp'
+    obtain ⟨_, _, row, hrow, hin⟩ := readLabels_cart_mem 0 0 lines p hp'
+    rcases htok row hrow p.2 hin with h | h
+    · simp [h] at hne
+    · exact h
+
+
+
+/-- every grid index has a text position in a third-core map: line `i + 2j`, column `jBase(line) - j`
+(with injectivity: text positions on lines ≥ 0 ↔ indices with `i + 2j ≥ 0` is one-to-one) -/
+theorem third_cell_inverse (M o i j : Int) :
+    cellOf .third M o ((thirdBase (i + 2 * j)).2 - j) (i + 2 * j) = (i, j) := by
+  unfold cellOf thirdBase
+  simp only []
+  split
+  · simp only [Prod.mk.injEq]; omega
+  · split
+    · simp only [Prod.mk.injEq]; omega
+    · split <;> (simp only [Prod.mk.injEq]; omega)
+
+/-- every grid index has a text position in a full flats-up map: line `i + 2j + 2·ijMax - corner`,
+column `jBase(line) - j` -/
+theorem full_cell_inverse (M o i j : Int) :
+    cellOf .full M o ((fullBase M o (i + 2 * j + 2 * M - o)).2 - j) (i + 2 * j + 2 * M - o) = (i, j) := by
+  unfold cellOf fullBase
+  simp only []
+  split
+  · simp only [Prod.mk.injEq]; omega
+  · split <;> (simp only [Prod.mk.injEq]; omega)
+
+
+/-- **every class: a drawing is complete unless one of the two known mechanisms strikes.**
+If (1) every data cell lies inside the window the writer inferred from the data (`hwin`), (2) the reader
+re-infers the writer's dimensions from the drawn lines (`hre`), and (3, tips-up maps, whose lines are counted
+from the top) no leading row was dropped (`htop`), then whatever `gridContentsToAscii` draws reads back with
+every label of the contents at its own index — nothing lost, nothing moved. These three hypotheses are exactly
+the negations of the classes under which the known incomplete drawings are filed (outline inference / reader
+re-inference), so in the model there is no other way to draw incompletely. `_partial`: labels that are data;
+that nothing is invented is not stated here. -/
+theorem write_read_complete_partial (k : Kind) (L : Labels) (m : AMap) (M o W H : Int)
+    (hdim : dimsFromData k L = some (M, o, W, H))
+    (hdata : ∀ p ∈ L, IsData p.2)
+    (hwin : ∀ p ∈ L, ∃ c l, 0 ≤ c ∧ c < W ∧ 0 ≤ l ∧ l < H ∧ cellOf k M o c l = p.1)
+    (hw : gridContentsToAscii k L = some m)
+    (hre : readerDims k m.lines = (M, o))
+    (htop : k = .tips → m.lines.length = H.toNat) :
+    ∃ m', readAscii k m.lines = some m' ∧
+      ∀ cell v, get? L cell = some v → get? m'.labels cell = some v := by
+  unfold gridContentsToAscii at hw
+  simp only [hdim] at hw
+  generalize hl0 : ((if k = .tips then pyRange H else (pyRange H).reverse).map
+      (fun ln => (pyRange W).map (fun c => tokenAt L (cellOf k M o c ln)))) = lines0 at hw
+  cases hcl : cleanLines lines0 true [] with
+  | none => simp [hcl] at hw
+  | some r =>
+    simp only [hcl] at hw
+    by_cases hrem : r.isEmpty = true
+    · simp [hrem] at hw
+    simp only [hrem, Bool.false_eq_true, ↓reduceIte, Option.some.injEq] at hw
+    have hml : m.lines = r := by rw [← hw]
+    obtain ⟨kd, hkl, hdash, hr, hne⟩ := cleanLines_true lines0 r hcl
+    let row : Int → List String := fun ln => (pyRange W).map (fun c => tokenAt L (cellOf k M o c ln))
+    have hlen0 : lines0.length = H.toNat := by
+      rw [← hl0]; split <;> simp [pyRange]
+    have hrlen : r.length = H.toNat - kd := by rw [hr]; simp [hlen0]
+    -- the drawn rows in the reader's order
+    have hord : (if k = .tips then r else r.reverse) =
+        (((pyRange H).map row).take (H.toNat - kd)).map removeTrailing := by
+      by_cases hk : k = .tips
+      · have hkd : kd = 0 := by
+          have := htop hk
+          rw [hml, hrlen] at this
+          have hn : kd ≤ H.toNat := by rw [← hlen0]; exact hkl
+          omega
+        subst hk
+        simp only [↓reduceIte] at hl0 ⊢
+        rw [hr, hkd, ← hl0]
+        simp only [List.drop_zero, Nat.sub_zero]
+        rw [List.take_of_length_le (by simp [pyRange])]
+      · simp only [hk, ↓reduceIte] at hl0 ⊢
+        have hrows : lines0.reverse = (pyRange H).map row := by
+          rw [← hl0, ← List.map_reverse, List.reverse_reverse]
+        rw [hr, ← List.map_reverse, List.reverse_drop, hrows, hlen0]
+    have hrowget : ∀ (ln : Int) (c : Nat), (row ln)[c]? =
+        if (c : Int) < W then some (tokenAt L (cellOf k M o (c : Int) ln)) else none := by
+      intro ln c
+      simp only [row, List.getElem?_map, pyRange_get]
+      split <;> simp
+    have hlook : ∀ (c l : Int), rowsLookup (if k = .tips then r else r.reverse) 0 c l =
+        if 0 ≤ l ∧ 0 ≤ c ∧ l.toNat < H.toNat - kd then (removeTrailing (row l))[c.toNat]? else none := by
+      intro c l
+      unfold rowsLookup
+      rw [hord]
+      by_cases h1 : 0 ≤ l ∧ 0 ≤ c
+      · have h1' : ((0 : Nat) : Int) ≤ l ∧ 0 ≤ c := by omega
+        rw [if_pos h1']
+        have hsub : (l - ((0 : Nat) : Int)).toNat = l.toNat := by omega
+        rw [hsub, List.getElem?_map, List.getElem?_take]
+        by_cases h2 : l.toNat < H.toNat - kd
+        · have h3 : 0 ≤ l ∧ 0 ≤ c ∧ l.toNat < H.toNat - kd := ⟨h1.1, h1.2, h2⟩
+          rw [if_pos h3, if_pos h2, List.getElem?_map, pyRange_get]
+          have h5 : ((l.toNat : Nat) : Int) = l := by omega
+          have h6 : l < H := by omega
+          simp [h5, h6]
+        · have h3 : ¬ (0 ≤ l ∧ 0 ≤ c ∧ l.toNat < H.toNat - kd) := fun h => h2 h.2.2
+          rw [if_neg h3, if_neg h2]; rfl
+      · have h1' : ¬ (((0 : Nat) : Int) ≤ l ∧ 0 ≤ c) := by omega
+        have h3 : ¬ (0 ≤ l ∧ 0 ≤ c ∧ l.toNat < H.toNat - kd) := fun h => h1 ⟨h.1, h.2.1⟩
+        rw [if_neg h1', if_neg h3]
+    have hrd : readerDims k r = (M, o) := by rw [← hml]; exact hre
+    have hlab : ∀ c l, 0 ≤ l → get? (readLabels k M o r) (cellOf k M o c l) =
+        if 0 ≤ l ∧ 0 ≤ c ∧ l.toNat < H.toNat - kd then (removeTrailing (row l))[c.toNat]? else none := by
+      intro c l hl; rw [read_keeps_every_token k M o r c l hl, hlook]
+    -- a data cell is drawn, kept and read back
+    have hcell : ∀ cell v, get? L cell = some v → get? (readLabels k M o r) cell = some v := by
+      intro cell v hg
+      have hmem := get?_some_mem L cell v hg
+      obtain ⟨c, l, hc0, hcW, hl0', hlH, hcl'⟩ := hwin _ hmem
+      obtain ⟨_, hrep, hnp, hnd⟩ := hdata _ hmem
+      simp only at hcl' hrep hnp hnd
+      have htok : tokenAt L (cellOf k M o c l) = v := by rw [hcl']; simp [tokenAt, hg, hrep]
+      have hcn : ((c.toNat : Nat) : Int) = c := by omega
+      have hrowc : (row l)[c.toNat]? = some v := by rw [hrowget, hcn, if_pos hcW, htok]
+      have hvrow : v ∈ row l := List.mem_of_getElem? hrowc
+      have hkept : l.toNat < H.toNat - kd := by
+        rcases Nat.lt_or_ge l.toNat (H.toNat - kd) with h | h
+        · exact h
+        · exfalso
+          by_cases hk : k = .tips
+          · have hkd : kd = 0 := by
+              have := htop hk
+              rw [hml, hrlen] at this
+              have hn : kd ≤ H.toNat := by rw [← hlen0]; exact hkl
+              omega
+            omega
+          · simp only [hk, ↓reduceIte] at hl0
+            have hrows : lines0.reverse = (pyRange H).map row := by
+              rw [← hl0, ← List.map_reverse, List.reverse_reverse]
+            have hidx : lines0[H.toNat - 1 - l.toNat]? = some (row l) := by
+              have h1 : lines0.reverse[l.toNat]? = some (row l) := by
+                rw [hrows, List.getElem?_map, pyRange_get]
+                have h5 : ((l.toNat : Nat) : Int) = l := by omega
+                simp [h5, hlH]
+              have hlt : l.toNat < lines0.length := by omega
+              rw [List.getElem?_reverse hlt] at h1
+              rw [hlen0] at h1
+              exact h1
+            have hin : row l ∈ lines0.take kd := by
+              have : (lines0.take kd)[H.toNat - 1 - l.toNat]? = some (row l) := by
+                rw [List.getElem?_take, if_pos (by omega)]; exact hidx
+              exact List.mem_of_getElem? this
+            have hd := hdash _ hin
+            unfold rowAllDash at hd
+            simp only [Bool.and_eq_true] at hd
+            have hall := List.all_eq_true.mp hd.2 v hvrow
+            rw [hnd] at hall; cases hall
+      obtain ⟨suf, hsplit, hsuf⟩ := removeTrailing_spec (row l)
+      have hin : c.toNat < (removeTrailing (row l)).length := by
+        rcases Nat.lt_or_ge c.toNat (removeTrailing (row l)).length with h | h
+        · exact h
+        · exfalso
+          have : (removeTrailing (row l) ++ suf)[c.toNat]? = some v := by rw [← hsplit]; exact hrowc
+          exact hnp (hsuf v (suffix_mem _ _ _ _ h this))
+      have hget : (removeTrailing (row l))[c.toNat]? = some v := by
+        have h1 : (removeTrailing (row l) ++ suf)[c.toNat]? = some v := by rw [← hsplit]; exact hrowc
+        rwa [List.getElem?_append_left hin] at h1
+      rw [← hcl', hlab c l hl0', if_pos ⟨hl0', hc0, hkept⟩, hget]
+    -- the reader succeeds
+    have hrne : r ≠ [] := by intro hc; apply hrem; simp [hc]
+    have hLne : L ≠ [] := by
+      intro hc; rw [hc] at hdim; simp [dimsFromData] at hdim
+    have hnonempty : (readLabels k M o r).isEmpty = false := by
+      cases hL : L with
+      | nil => exact absurd hL hLne
+      | cons p ps =>
+        have hp : p ∈ L := by rw [hL]; exact List.mem_cons_self
+        obtain ⟨_, _, hnp, _⟩ := hdata p hp
+        -- p is found through its own key (first match carries data too)
+        cases hg : get? L p.1 with
+        | none =>
+          exfalso
+          unfold get? at hg
+          have : L.find? (fun q => q.1 == p.1) = none := by
+            cases hf : L.find? (fun q => q.1 == p.1) with
+            | none => rfl
+            | some q => simp [hf] at hg
+          rw [List.find?_eq_none] at this
+          exact this p hp (by simp)
+        | some v =>
+          have := hcell p.1 v hg
+          cases hrl : readLabels k M o r with
+          | nil => rw [hrl] at this; simp [get?] at this
+          | cons _ _ => rfl
+    have hread := readAscii_some k r (by simpa using hrem) (by rw [hrd]; exact hnonempty)
+    obtain ⟨m', hm1, hm2⟩ := hread
+    refine ⟨m', by rw [hml]; exact hm1, ?_⟩
+    intro cell v hg
+    rw [hm2, hrd]
+    exact hcell cell v hg
+
+
+section Examples
+/-! Non-vacuity: concrete instances of the hypotheses. -/
+private def exL : Labels := [((0, 0), "A"), ((1, 0), "F1"), ((0, 1), "C"), ((2, 1), "B")]
+
+example : ∀ p ∈ exL, 0 ≤ p.1.1 ∧ 0 ≤ p.1.2 := by decide
+example : IsData "A" ∧ IsData "F1" := by unfold IsData; decide
+/-- the writer does draw these contents (the premise of `cart_write_read_id_partial` is satisfiable) -/
+example : (gridContentsToAscii .cart exL).map (·.lines) = some [["C", "-", "B"], ["A", "F1"]] := by decide +kernel
+/-- two distinct text cells of a third-core map (lines counted from the bottom) -/
+example : cellOf .third 0 0 1 4 ≠ cellOf .third 0 0 0 5 := by decide
+private def exHex : Labels :=
+  [((0, 0), "A"), ((1, 0), "B"), ((-1, 0), "C"), ((0, 1), "D"), ((0, -1), "E"), ((1, -1), "F"), ((-1, 1), "G")]
+/-- hypotheses of `write_read_complete_partial` for a complete 1-ring tips-up hexagon: dimensions, window,
+re-inferred dimensions and line count all check -/
+example : dimsFromData .tips exHex = some (1, 0, 3, 3) := by decide +kernel
+example : ∀ p ∈ exHex, ∃ c l, 0 ≤ c ∧ c < 3 ∧ 0 ≤ l ∧ l < 3 ∧ cellOf .tips 1 0 c l = p.1 := by
+  intro p hp
+  simp only [exHex, List.mem_cons, List.mem_nil_iff, or_false] at hp
+  rcases hp with rfl | rfl | rfl | rfl | rfl | rfl | rfl
+  · exact ⟨1, 1, by decide⟩
+  · exact ⟨2, 0, by decide⟩
+  · exact ⟨0, 2, by decide⟩
+  · exact ⟨1, 0, by decide⟩
+  · exact ⟨1, 2, by decide⟩
+  · exact ⟨2, 1, by decide⟩
+  · exact ⟨0, 1, by decide⟩
+example : (gridContentsToAscii .tips exHex).map (fun m => (readerDims .tips m.lines, m.lines.length)) = some ((1, 0), 3) := by
+  decide +kernel
+end Examples
 
 end ArmiVerif.AsciiMap
 
@@ -259,5 +1225,21 @@ theorem place_refuses_iff (ds : List AssemDesign) (contents : List (Cell × Stri
         simp only [reduceCtorEq, false_or, false_iff]
         intro hex
         exact absurd (ih.mpr hex) (by simp)
+
+section Examples
+/-! Non-vacuity for the blueprint theorems. -/
+private def exComps : List Comp :=
+  [⟨"fuel", [("od", .num (3/4)), ("mult", .num 7)]⟩, ⟨"bond", [("id", .link "fuel" "od"), ("od", .link "clad" "id")]⟩,
+   ⟨"clad", [("id", .num (7/8)), ("mult", .link "bond" "mult")]⟩, ⟨"x", [("a", .link "y" "b")]⟩, ⟨"y", [("b", .link "x" "a")]⟩]
+
+/-- a chain of two links resolves to the number at its end -/
+example : resolve exComps (fuelFor exComps) "bond" "od" = some (7/8) := by decide +kernel
+/-- a two-cycle is closed under "links to": the hypothesis of `cyclic_links_rejected` is satisfiable -/
+example : declared exComps "x" "a" = some (.link "y" "b") ∧ declared exComps "y" "b" = some (.link "x" "a") := by
+  decide +kernel
+example : stack [5/2, 10, 1/4] = [(0, 5/2), (5/2, 25/2), (25/2, 51/4)] := by decide +kernel
+example : (place [⟨"a0", "A1", [], [], [], []⟩] [((0, 0), "A1"), ((1, -1), "A1")]).isSome = true := by decide +kernel
+example : place [⟨"a0", "A1", [], [], [], []⟩] [((0, 0), "A1"), ((1, -1), "ZZ")] = none := by decide +kernel
+end Examples
 
 end ArmiVerif.Blueprint
